@@ -281,11 +281,16 @@ pub fn eval(ctx: &mut Ctx, op: &str, args: &[Sexp]) -> Option<String> {
 }
 
 pub fn gen_c04(r: &mut Rng, thorough: bool, out: &mut Vec<String>) {
+    // reader-based decoding with one Deserializer used again after a failed value (scratch writes stay in bounds)
+    crate::ops_io::gen_deseq(r, thorough, out);
     // the C03 adversarial stream, re-run under guard pages (subsampled in quick)
     let mut c03 = Vec::new();
     crate::ops_codec::gen_c03(r, thorough, &mut c03);
     let stride = if thorough { 3 } else { 12 };
     for (i, l) in c03.iter().enumerate() {
+        if !l.starts_with("de ") {
+            continue;
+        }
         if i % stride == 0 || l.len() > 60 {
             out.push(format!("deg{}", &l[2..]));
         }
